@@ -409,11 +409,13 @@ class Generator:
             self.rules.hit('R9')
         if status != 'external':
             head_and_body = self.rewrite_fn_text(rel, addr, head_and_body)
-        segs = self.splice_fn(rel, addr, head_and_body, it, c, status, line_of(it.head_start))
+        canary_on = getattr(self, 'canary', False) and c is not None and status == 'verify' and it.has_body
+        segs = self.splice_fn(rel, addr, head_and_body, it, c, status, line_of(it.head_start),
+                              canary_mode=('start' if (canary_on and in_trait_impl) else None))
         info = FnInfo(addr=addr, status=status, src_file=rel, src_line=line_of(it.head_start),
                       tags=(c.tags if c else []), bounded=(c.bounded if c else None), has_contract=bool(c))
         info.bodytags = dict(c.bodytags) if c else {}
-        info.canary = addr in self.canary_fns
+        info.canary = (addr in self.canary_fns)
         pre = '\n' + ''.join(a + '\n' for a in attrs)
         if c:
             pre += ''.join(a + '\n' for a in c.attrs)
@@ -432,6 +434,23 @@ class Generator:
         self.fns.append(info)
         if c and c.after and parent is None:
             self.emit('\n' + c.after, 'spec', src_file=c.src)
+        if canary_on and not in_trait_impl:
+            # vacuity canary: a renamed copy of the function with `ensures false`; callers keep seeing the real one
+            hb2 = re.sub(r'\bfn\s+%s\b' % re.escape(it.name), 'fn %s__verif_canary' % it.name, head_and_body, count=1)
+            caddr = addr + '#canary'
+            segs2 = self.splice_fn(rel, caddr, hb2, it, c, status, line_of(it.head_start), canary_mode='clone')
+            for sg in segs2:
+                if sg.origin in ('clause', 'proof') and not sg.oid.startswith('CANARY:'):
+                    sg.oid = 'CANARYCOPY:' + sg.oid
+                    sg.tags = ()
+            info2 = FnInfo(addr=caddr, status=status, src_file=rel, src_line=line_of(it.head_start), tags=[], has_contract=True)
+            info2.bodytags = {}
+            info2.canary = True
+            self.emit(pre)
+            a2 = len(self.segs)
+            self.segs.extend(segs2)
+            info2._seg_range = (a2, len(self.segs))
+            self.fns.append(info2)
 
     # --- rewrite rules that act on function text (newline preserving)
     def rewrite_fn_text(self, rel, addr, txt: str) -> str:
@@ -619,7 +638,7 @@ class Generator:
                       rep, txt)
 
     # --- splice
-    def splice_fn(self, rel, addr, txt: str, it: Item, c: Optional[Contract], status, src_line) -> List[Seg]:
+    def splice_fn(self, rel, addr, txt: str, it: Item, c: Optional[Contract], status, src_line, canary_mode=None) -> List[Seg]:
         """txt starts at the fn head (after attrs). Returns segments."""
         toks = lex(txt)
         s = sig(toks)
@@ -690,7 +709,7 @@ class Generator:
                 spec_segs.append(Seg('\n    requires\n', 'gen'))
                 for cl in req:
                     spec_segs.append(self.clause_seg(cl, addr))
-            canary = getattr(self, 'canary', False) and status == 'verify' and body_tok is not None
+            canary = canary_mode == 'clone' and status == 'verify' and body_tok is not None
             if ens or canary:
                 spec_segs.append(Seg('\n    ensures\n', 'gen'))
                 for cl in ens:
@@ -820,6 +839,9 @@ class Generator:
                 inserts.append((b_lo + m.start(2), Seg(spec + ' {', 'clause', oid=cs.oid, tags=tuple(cs.tags), ckind='closure', addr=addr), b_lo + m.start(2)))
                 inserts.append((b, Seg(' }', 'src'), b))
                 self.rules.hit('R15')
+            if canary_mode == 'start' and status == 'verify':
+                inserts.append((b_lo, Seg('\n proof { assert(false); }\n', 'clause', oid='CANARY:' + short(addr), tags=(), ckind='assert', addr=addr), b_lo))
+                self.canary_fns.add(addr)
             # proof splices
             for pf in c.proofs:
                 seg = Seg('\n' + pf.text.rstrip('\n') + '\n', 'proof', oid=pf.oid, tags=tuple(pf.tags), ckind='proof', addr=addr)
